@@ -175,12 +175,18 @@ def rekeyAny {κ : Type} [DecidableEq κ] (g : κ → κ) (M : List (κ × EAgg)
 
 def dumpKey (k : Key) : String := k.1 ++ ":::" ++ k.2
 
-/-- `parts := strings.Split(key, ":::")`, `Endpoint{parts[0], parts[1]}` (Go panics on < 2 parts; a dumped key
-    always has ≥ 2). -/
+/-- split at the FIRST `:::` -/
+def splitFirstDelim : List Char → Option (List Char × List Char)
+  | [] => none
+  | ':' :: ':' :: ':' :: rest => some ([], rest)
+  | x :: xs => (splitFirstDelim xs).map fun p => (x :: p.1, p.2)
+
+/-- `parts := strings.SplitN(key, ":::", 2)`, `Endpoint{parts[0], parts[1]}` (Go panics on < 2 parts; a dumped
+    key always has 2). -/
 def restoreKey (s : String) : Key :=
-  match splitDelim s.toList with
-  | a :: b :: _ => (String.ofList a, String.ofList b)
-  | _ => (s, "")
+  match splitFirstDelim s.toList with
+  | some (a, b) => (String.ofList a, String.ofList b)
+  | none => (s, "")
 
 def toSec (a : EAgg) : EAgg := { a with minT := a.minT / 1000, maxT := a.maxT / 1000 }
 def toMs (a : EAgg) : EAgg := { a with minT := a.minT * 1000, maxT := a.maxT * 1000 }
